@@ -145,6 +145,90 @@ class MergeShapeTask(T.Task):
         return None
 
 
+class ParseV2Task(T.Task):
+    """the real parse_v2 on documents with e entries x j codes, every leaf (field values, codes, the optional
+    `primary` flag) SYMBOLIC: result == one entry per code, in order, other fields copied, `primary` defaulting to
+    False, the source list dropped.  Unbounded in the leaf values, BOUNDED in the shape (e, j <= 3)."""
+
+    def __init__(self, src, dst):
+        self.src, self.dst = src, dst
+        self.name = f"parse_v2 (symbolic leaves) expand {src} -> {dst}"
+
+    def setup(self, I):
+        return {}
+
+    def docs(self, concrete=False):
+        n = [0]
+
+        def leaf(tag):
+            n[0] += 1
+            return f"{tag}{n[0]}" if concrete else SInt(z3.Int(f"{tag}{n[0]}"))
+        for n_entries in range(0, 4):
+            for n_vals in ((0, 1, 2), (3, 0, 1), (1, 1, 1), (2, 3, 0))[n_entries][:max(n_entries, 1)] if n_entries else (0,):
+                for variant in range(3):
+                    entries = []
+                    for i in range(n_entries):
+                        e = {"name": leaf("name"), "bic": leaf("bic"), self.src: [leaf("code") for _ in range((n_vals + i) % 4)]}
+                        if variant == 1 and i == 0:
+                            e["primary"] = leaf("primary")
+                        if variant == 2:
+                            e[self.dst] = leaf("stale")        # a stale target field is overwritten by the expansion
+                            e = dict(reversed(list(e.items())))
+                        entries.append(e)
+                    yield {"expand_from": self.src, "expand_into": self.dst, "entries": entries}
+
+    def want(self, doc):
+        want = []
+        for e in doc["entries"]:
+            for v in e[self.src]:
+                w = {k: x for k, x in e.items() if k != self.src}
+                w.setdefault("primary", False)
+                w[self.dst] = v
+                want.append(w)
+        return want
+
+    def code(self, I, inp):
+        from schwifty import registry
+        out = []
+        for doc in self.docs():
+            want = self.want(doc)
+            for e in doc["entries"]:
+                I.alloc(e)
+                I.alloc(e[self.src])
+            I.alloc(doc)
+            I.alloc(doc["entries"])
+            got = I.call(registry.parse_v2, [doc], {})
+            out.append((got, want))
+        return out
+
+    def custom_obligations(self, I, inp, code_paths, cobs):
+        out = []
+        for i, (path, o) in enumerate(cobs):
+            if not isinstance(o, list):
+                out.append((f"path {i}: parse_v2 raised {o!r}", path["pc"], z3.BoolVal(False)))
+                continue
+            oks = [T.as_formula(T.obs_eq(I, got, want)) for got, want in o]
+            shape = all(isinstance(got, list) and len(got) == len(want) and
+                        all(isinstance(g, dict) and list(g) == list(w) or set(g) == set(w) for g, w in zip(got, want)) for got, want in o)
+            out.append((f"path {i}: one entry per code, in order, fields copied, primary defaulted, on {len(o)} documents", path["pc"],
+                        z3.And(z3.BoolVal(shape), *oks)))
+        return out
+
+    def native_agree(self, inp):
+        # replay: the same documents with distinct concrete leaves, on the real function
+        from schwifty import registry
+        for doc in self.docs(concrete=True):
+            want = self.want(doc)
+            shown = copy.deepcopy(doc)
+            got = T.native_obs(lambda: registry.parse_v2(doc))
+            if got != want:
+                return False, dict(document=shown, got=got if isinstance(got, list) else repr(got)), f"expected {want}"
+        return True, None, None
+
+    def sample(self, rnd):
+        return None
+
+
 class MergeContractTask(T.Task):
     """UNBOUNDED: the real merge_dicts on two abstract dictionaries (any size, any keys, any values): the result
     satisfies the contract of Merge pointwise for a generic key, assuming the recursive call satisfies the same
@@ -491,6 +575,7 @@ def main(seed, tier):
              ("list", "manual_lu.json,manual_lu-local.json,generated_at.json,zz.v2.json")]
     results = common.run_tasks([("props.c18", "MergeContractTask", ())] +
                                [("props.c18", "GetFoldTask", f) for f in folds] +
+                               [("props.c18", "ParseV2Task", a) for a in (("bank_codes", "bank_code"), ("bics", "bic"))] +
                                [("props.c18", "MergeShapeTask", (i,)) for i in range(16)], seed, tier)
     obls = []
     n_merge, distinct, wit = enumerate_merge(3 if tier == "thorough" else 2)
